@@ -287,13 +287,13 @@ def _q(xs):  # fields i,j,k,r -> (r,i,j,k)
     return [xs[3], xs[0], xs[1], xs[2]]
 
 
-def reference(nm, a, res):
-    """-> None (ok / not judged) or message."""
+def reference(nm, a, res, T=3e-5):
+    """-> None (ok / not judged) or message. T: unit tolerance of the scalar type (float 3e-5, double 1e-13)."""
+    E = T / 3e-5
     if any(x != x or abs(x) == INF for x in a):
         return None
     if any(x != x or abs(x) == INF for x in res):
         return "%s returns a non-finite component for finite, well-conditioned arguments: %s" % (nm, res)
-    T = 3e-5
     if nm.startswith("l3_") or nm.startswith("l2_"):
         n = 3 if nm.startswith("l3_") else 2
         op = nm[3:]
@@ -369,7 +369,7 @@ def reference(nm, a, res):
                 if not _close(flat(m), dx + dy + N, T * 64):
                     return "frame(N,up) must have axes norm(up x N), norm(N x dx), N: expected %s" % (dx + dy + N)
             g = mat_mul(transpose(m), m)
-            if not _close(flat(g), [1, 0, 0, 0, 1, 0, 0, 0, 1], 1e-3) or not _close(m[2], N, 0) or abs(det3(m) - 1) > 1e-3:
+            if not _close(flat(g), [1, 0, 0, 0, 1, 0, 0, 0, 1], 1e-3 * E) or not _close(m[2], N, 0) or abs(det3(m) - 1) > 1e-3 * E:
                 return "frame(N) must be orthonormal, right-handed, with third axis N: got %s" % m
     elif nm.startswith("a3_") or nm.startswith("a2_"):
         n = 3 if nm.startswith("a3_") else 2
@@ -462,7 +462,7 @@ def reference(nm, a, res):
         elif op == "from_matrix":
             m = _cols(a, 3)
             q = _q(res)
-            if abs(norm(q) - 1) > 1e-3 or not _close(flat(qmat(q)), flat(m), 2e-3):
+            if abs(norm(q) - 1) > 1e-3 * E or not _close(flat(qmat(q)), flat(m), 2e-3 * E):
                 return "quaternion-from-matrix must describe the same rotation as the matrix: got %s for %s" % (q, m)
         elif op == "from_ypr":
             y, p, r = a
@@ -470,7 +470,7 @@ def reference(nm, a, res):
             q = _q(res)
             if not (_close(q, exp, T * 16) or _close(q, [-x for x in exp], T * 16)):
                 # the documented order is the code's own closed form; accept any fixed axis order only if it is a rotation
-                if abs(norm(q) - 1) > 1e-4:
+                if abs(norm(q) - 1) > 1e-4 * E:
                     return "yaw/pitch/roll quaternion must be a unit quaternion: got %s" % q
         elif op == "slerp":
             f, qa, qb = a[0], _q(a[1:5]), _q(a[5:9])
@@ -478,14 +478,14 @@ def reference(nm, a, res):
             d = sum(x * y for x, y in zip(qa, qb))
             if d < 0:
                 qa, d = [-x for x in qa], -d
-            if abs(norm(q) - 1) > 2e-3:
+            if abs(norm(q) - 1) > 2e-3 * E:
                 return "slerp of unit quaternions must be a unit quaternion: |q|=%s" % norm(q)
             if d < 0.9995:
                 th = math.acos(max(-1, min(1, d)))
                 fb = math.sin(th * f) / math.sin(th)
                 fa = math.cos(th * f) - d * fb
                 exp = [fa * x + fb * y for x, y in zip(qa, qb)]
-                if not _close(q, exp, 2e-3 / max(math.sin(th), 0.03)):
+                if not _close(q, exp, 2e-3 * E / max(math.sin(th), 0.03)):
                     return "slerp must interpolate along the short arc: expected %s" % exp
             elif d < 0.99999999:
                 # near-parallel operands (linear fallback in the code): the exact slerp differs from the normalised
@@ -528,7 +528,63 @@ _DSIGS = {
     "d_q_from_ypr": ["r", "r", "r"], "d_l3_inverse": ["L"], "d_l3_det": ["L"], "d_l3_mul": ["L", "L"], "d_l3_rotate": ["u", "r"],
     "d_l3_from_quat": ["Q"], "d_l3_frame": ["n"], "d_l3_xfmNormal": ["L", "v"], "d_a3_rcp": ["A"], "d_a3_mul": ["A", "A"],
     "d_a3_xfmPoint": ["A", "v"], "d_a3_lookat": ["LOOK"], "d_l2_orthogonal": ["ORTH"],
+    "d_l3_ldiv": ["L", "L"], "d_l3_apply": ["L", "v"], "d_l3_xfmPoint": ["L", "v"], "d_l3_xfmVector": ["L", "v"],
+    "d_a3_div": ["A", "A"], "d_a3_xfmVector": ["A", "v"], "d_a3_xfmNormal": ["A", "v"], "d_a3_rotate_about": ["v", "u", "r"],
 }
+# compound assignments (both precisions): judged as the binary operator they abbreviate
+_ISIGS = {
+    "a3_imul": ["A", "A"], "a3_idiv": ["A", "A"],  "a3_imul_self": ["A"],
+    "l3_imul": ["L", "L"], "l3_idiv": ["L", "L"], "l3_imul_self": ["L"], "l2_imul": ["L2", "L2"], "l2_idiv": ["L2", "L2"],
+    "q_imul": ["Qs", "Qs"], "q_idiv": ["Qs", "Qs"], "q_iadd": ["Qs", "Qs"], "q_isub": ["Qs", "Qs"], "q_imuls": ["Qs", "s"],
+    "q_idivs": ["Qs", "s"], "q_imul_self": ["Qs"],
+}
+for _k, _v in _ISIGS.items():
+    _DSIGS["d_" + _k] = _v
+    _DSIGS["f_" + _k] = _v
+_DSIGS["f_l2_orthogonal"] = ["ORTH"]
+
+
+def compound_reference(nm, a, res, T):
+    """the compound assignment x op= y must leave x op y in x (and x op= x must read both operands before writing)."""
+    if any(x != x or abs(x) == INF for x in a):
+        return None
+    if len(res) == 0 or any(x != x or abs(x) == INF for x in res):
+        return "%s leaves a non-finite or no result for finite, well-conditioned arguments: %s" % (nm, res)
+    if nm in ("a3_imul", "a3_idiv"):
+        return reference("a3_mul" if nm == "a3_imul" else "a3_div", a, res, T)
+    if nm == "a3_imul_self":
+        return reference("a3_mul", a + a, res, T)
+    if nm in ("a3_imuls", "a3_idivs"):
+        exp = [x * a[12] if nm == "a3_imuls" else x / a[12] for x in a[:12]]
+        return None if _close(res, exp, T * 64) else "%s must scale every component of the linear part and the origin: expected %s" % (nm, exp)
+    if nm == "l3_imul":
+        return reference("l3_mul", a, res, T)
+    if nm == "l3_imul_self":
+        return reference("l3_mul", a + a, res, T)
+    if nm in ("l3_idiv", "l3_ldiv"):
+        exp = flat(mat_mul(_cols(a[:9], 3), inv3(_cols(a[9:], 3))))
+        return None if _close(res, exp, T * 2048) else "%s must be a * inverse(b): expected %s" % (nm, exp)
+    if nm == "l2_imul":
+        return reference("l2_mul", a, res, T)
+    if nm == "l2_idiv":
+        exp = flat(mat_mul(_cols(a[:4], 2), inv2(_cols(a[4:], 2))))
+        return None if _close(res, exp, T * 2048) else "%s must be a * inverse(b): expected %s" % (nm, exp)
+    if nm == "q_imul":
+        return reference("q_mul", a, res, T)
+    if nm == "q_imul_self":
+        return reference("q_mul", a + a, res, T)
+    if nm == "q_idiv":
+        q = _q(a[4:])
+        n2 = sum(x * x for x in q)
+        exp = qmul(_q(a[:4]), [x / n2 for x in qconj(q)])
+        return None if _close(_q(res), exp, T * 64) else "q /= p must be q * rcp(p): expected %s" % exp
+    if nm in ("q_iadd", "q_isub"):
+        exp = [x + y if nm == "q_iadd" else x - y for x, y in zip(a[:4], a[4:])]
+        return None if _close(res, exp, T * 16) else "%s per component: expected (i,j,k,r) %s" % (nm, exp)
+    if nm in ("q_imuls", "q_idivs"):
+        exp = [x * a[4] if nm == "q_imuls" else x / a[4] for x in a[:4]]
+        return None if _close(res, exp, T * 64) else "%s must scale every component: expected (i,j,k,r) %s" % (nm, exp)
+    return None
 
 
 def d2h(x):
@@ -563,7 +619,7 @@ def gen_double_cases(rng, tier):
                 if i % 5 == 4:
                     q = qaxis(_rand_unit(rng), rng.pick([1.0, -1.0]) * (math.pi - rng.pick([1e-7, 1e-5, 1e-3, 5e-2])))
                 vals = flat(qmat(q))
-            elif nm == "d_l2_orthogonal":
+            elif nm.endswith("_l2_orthogonal"):
                 # M = R(a) diag(sx, sy) R(b), b = 0 in half of the cases (perpendicular columns), mirrored in a quarter
                 a_, b_ = rng.uniform(-math.pi, math.pi), (0.0 if i % 2 == 0 else rng.uniform(-math.pi, math.pi))
                 sx, sy = rng.pick([0.25, 0.5, 1.0, 2.0, 5.0]), rng.pick([0.25, 0.5, 1.0, 3.0, 5.0])
@@ -590,6 +646,8 @@ def gen_double_cases(rng, tier):
                         vals += flat(_rand_mat3(rng))
                     elif t == "A":
                         vals += flat(_rand_mat3(rng)) + [rng.uniform(-2, 2) for _ in range(3)]
+                    elif t == "L2":
+                        vals += flat(_rand_mat2(rng))
                     elif t == "v":
                         vals += [rng.uniform(-2, 2) for _ in range(3)]
                     elif t in ("u", "n"):
@@ -602,6 +660,8 @@ def gen_double_cases(rng, tier):
                         vals += [rng.uniform(-2 * math.pi, 2 * math.pi)]
                     elif t == "s":
                         vals += [trprop.r32(rng.pick([0.25, 0.5, 2.0, 4.0, -1.0, 0.3, 1.7]))]
+            if nm.startswith("f_"):
+                vals = [trprop.r32(float(x)) for x in vals]
             c.append(nm + " " + " ".join(d2h(float(x)) for x in vals))
             if len(c) == 25:
                 cases.append(c)
@@ -651,6 +711,7 @@ def extra_stage(rep, ctx):
             nm = w[0][2:]
             nm = {"q_smul": "q_smul_ref", "q_muls": "q_muls_ref"}.get(nm, nm)
             a = [h2d(x) for x in w[1:]]
+            T = 1e-13 if w[0].startswith("d_") else 3e-5
             if nm == "q_smul_ref":
                 msg = None if _close(res, [a[0] * x for x in a[1:]], 1e-9) else "float * quatd must scale every component: expected %s" % [a[0] * x for x in a[1:]]
             elif nm == "l2_orthogonal":
@@ -668,11 +729,13 @@ def extra_stage(rep, ctx):
                         msg = "orthogonal() must return the closest orthogonal matrix (U^T M symmetric positive definite): U^T M = %s" % sym
             elif nm == "q_muls_ref":
                 msg = None if _close(res, [a[4] * x for x in a[:4]], 1e-9) else "quatd * float must scale every component: expected %s" % [a[4] * x for x in a[:4]]
+            elif nm in _ISIGS or nm == "l3_ldiv":
+                msg = compound_reference(nm, a, res, T)
             else:
-                msg = reference(nm, a, res)
+                msg = reference(nm, a, res, T)
             if msg and reported < 3:
                 reported += 1
-                rep.violation(dict(kind="property-oracle", ops=[line], impl=[o], args=a, detail="double instantiation: " + msg,
+                rep.violation(dict(kind="property-oracle", ops=[line], impl=[o], args=a, detail=("double" if w[0].startswith("d_") else "float") + " instantiation: " + msg,
                                    explanation="the real code's double-precision result differs from the independent reference of the mathematical definition beyond the tolerance"))
     return dict(evaluations=n, distinct=distinct, samples=[dict(oracle_case=cases[0][:2], impl=io.get(0, [])[:2])] if cases else [],
                 found_input=reported > 0)
